@@ -121,16 +121,20 @@ Qed.
 
 Lemma quiet_visit_while c lo op x : quiet op -> panic x = false -> panic (visit_while fx c lo op x) = false.
 Proof.
-  intros H1 Hx. unfold visit_while. pn. apply quiet_with_child; [|exact Hx].
-  intros y Hy. pn. apply H1. exact Hy.
+  intros H1 Hx. unfold visit_while.
+  assert (Hq : quiet (fun a => while_post c lo (op a))) by (intros y Hy; pn; apply H1; exact Hy).
+  destruct (fixF fx); [apply quiet_with_child; [exact Hq | pn; exact Hx] | pn; apply quiet_with_child; [exact Hq | exact Hx]].
 Qed.
+
+Lemma panic_dowhile_test prev c x : panic (dowhile_test fx prev c x) = panic x.
+Proof. unfold dowhile_test. destruct (fixF fx); pn; reflexivity. Qed.
 
 Lemma quiet_visit_do_while p c lo op x : quiet op -> panic x = false -> panic (visit_do_while fx p c lo op x) = false.
 Proof.
   intros H1 Hx. unfold visit_do_while.
   assert (H : panic (with_child fx KLoop lo (fun a => dowhile_post fx c lo (op a)) x) = false).
   { apply quiet_with_child; [|exact Hx]. intros y Hy. pn. apply H1. exact Hy. }
-  cbv zeta. unfold dowhile_tail. destruct (get_end_reason _ lo) as [e|]; [destruct (is_forced e)|]; pn; exact H.
+  cbv zeta. unfold dowhile_tail. rewrite panic_dowhile_test. destruct (get_end_reason _ lo) as [e|]; [destruct (is_forced e)|]; pn; exact H.
 Qed.
 
 Lemma quiet_visit_for p c lo op x : quiet op -> panic x = false -> panic (visit_for fx p c lo op x) = false.
